@@ -20,7 +20,7 @@ NoFile == [ok |-> FALSE, mem |-> EmptyMem, start |-> NoAddr, base |-> <<0, 0>>, 
 \* the logged projection of the real objects equals the (primed) spec state; the absolute address of an image without a
 \* single byte is not asserted (the property speaks about where bytes are)
 PostMatches(F) == /\ Len(E.len) = Len(F) /\ Len(E.abs) = Len(F)
-                  /\ \A n \in Ids(F) : E.len[n] = ILen(F, n) /\ (ILen(F, n) > 0 => E.abs[n] = Abs(F, n))
+                  /\ LET TB == Tab(F) IN \A n \in Ids(F) : E.len[n] = TB.len[n] /\ (TB.len[n] > 0 => E.abs[n] = Abs(F, n))
 TInit == tid \in 1..Len(Traces) /\ l = 1 /\ Init /\ file = NoFile /\ TLCSet(tid, 1)
 Acyclic(ns) == \A k \in 1..Len(ns) : ns[k].par >= 0 /\ ns[k].par < k
 TTree == /\ Is("Tree") /\ forest = <<>> /\ Acyclic(E.nodes)
@@ -47,8 +47,8 @@ Stored(s) == s.k \in {"bin", "pat"}                      \* HEX / S19 do not sto
 TFile ==
   /\ Is("File") /\ E.n \in Roots(forest) /\ AddrOK(E.base) /\ ExportAsserted(forest, E.n) /\ ILen(forest, E.n) >= 1
   /\ LET dec == Decode(E.fmt, E.recs, E.base)
-         exp == Bytes(forest, E.n)
          M == Map(forest, E.n)
+         exp == BytesOf(forest, M)
          L == Len(exp) IN
      /\ dec.ok
      /\ \A i \in DOMAIN dec.mem : i >= 0 /\ i < L                                       \* nothing outside the image
